@@ -12,6 +12,7 @@
 #include <oneapi/tbb/task_arena.h>
 #include <oneapi/tbb/task.h>
 #include <oneapi/tbb/global_control.h>
+#include <oneapi/tbb/flow_graph.h>
 #include "vfh.h"
 using namespace vfh;
 static tbb::task::suspend_point sp[2]; static int have[2]; static int cont[2], other, resumed[2], running_cont[2];
@@ -54,6 +55,48 @@ static void scenario() {
             tg.run([&] { tbb::task::suspend([&](tbb::task::suspend_point p) { publish(1, p); }); after_resume(1); });
             tg.wait(); if (cont[0] != 1 || cont[1] != 1) vf_fail("wait returned early: %d %d", cont[0], cont[1]); });
         vf_join(r); vf_window(0); }
+    else if (streq(k, "critical")) {
+        // the suspension happens inside a CRITICAL task (body of a flow-graph node with a priority) in an arena of one slot; the foreign
+        // thread resumes late, when the only thread of the arena sleeps: the resume task travels through the critical stream and must still wake it
+        tbb::task_arena a1(1);
+        int r = spawn([&] { (void)tbb::this_task_arena::max_concurrency(); vf_gate_wait(); tbb::task::suspend_point p = take(0); if (late) settle(); resumed[0] = 1; tbb::task::resume(p); });
+        while (vf_gate_count() < 1) vf_yield();
+        vf_window(1); vf_gate_open();
+        a1.execute([&] { tbb::flow::graph g; tbb::flow::function_node<int, int> n(g, tbb::flow::unlimited, [&](int v) { tbb::task::suspend([&](tbb::task::suspend_point p) { publish(0, p); }); after_resume(0); return v; }, tbb::flow::node_priority_t(1));
+            n.try_put(1); g.wait_for_all(); if (cont[0] != 1) vf_fail("wait_for_all returned while the suspended node body had continued %d times", cont[0]); });
+        vf_join(r); vf_window(0); }
+    else if (streq(k, "recall")) {
+        // Owner recall when the thread that leaves a foreign stack must start a brand-new coroutine:
+        //  1 the worker W suspends an enqueued task V on its own stack (W now lives on a coroutine Ca);
+        //  2 main M runs tg.run_and_wait(X) at the top level of execute(); X suspends (M lives on a coroutine Cb);
+        //  3 M is parked inside a task B; the controller F resumes X, so W runs the resume task: it retires Ca into the arena's coroutine
+        //    cache and continues X on M's original stack;
+        //  4 B suspends on M: M takes Ca out of the cache (cache empty);
+        //  5 X finishes on W: the wait is over, W is not the owner, leaves through recall_point() with a NEW coroutine and must recall M;
+        //  6 run_and_wait must return on M; then B and V are resumed and must continue.
+        tbb::task_arena a2(2, 1); a2.initialize(); static int v_susp, x_susp, x_cont, x_on_m, m_blocked, b_on_w, do_pop, b_susp, b_done, v_done, cache_emptied, m_returned, m_ret_on_m, mthread; static tbb::task::suspend_point spV, spX, spB;
+        v_susp = x_susp = x_cont = x_on_m = m_blocked = b_on_w = do_pop = b_susp = b_done = v_done = cache_emptied = m_returned = m_ret_on_m = 0; mthread = vf_self();
+        auto wait_for = [](int& flag, int max = 20000) { for (int i = 0; i < max && !flag; i++) vf_yield(); return flag != 0; };
+        static tbb::task_arena* ap; ap = &a2;
+        static void (*blocker)() = [] { if (vf_self() != mthread) { ++b_on_w; return; } if (m_blocked) return; m_blocked = 1; for (int i = 0; i < 40000 && !do_pop; i++) vf_yield();
+            tbb::task::suspend([](tbb::task::suspend_point p) { spB = p; b_susp = 1; }); b_done = 1; };
+        int f = spawn([&] { (void)tbb::this_task_arena::max_concurrency(); vf_gate_wait();
+            if (!wait_for(x_susp)) { vf_outcome("setup-x"); return; } for (int i = 0; i < 30; i++) vf_yield();
+            for (int i = 0; !m_blocked; i++) { if (i > 60) { vf_outcome("setup-b"); return; } int seen = b_on_w; ap->enqueue(blocker); for (int j = 0; j < 400 && !m_blocked && b_on_w == seen; j++) vf_yield(); }
+            resumed[0] = 1; tbb::task::resume(spX); if (!wait_for(x_cont)) { vf_outcome("setup-xc"); return; }
+            do_pop = 1; if (!wait_for(b_susp)) { vf_outcome("setup-bs"); return; } for (int i = 0; i < 30; i++) vf_yield();
+            cache_emptied = 1;
+            if (!wait_for(m_returned, 60000)) vf_fail("run_and_wait() did not return although every task of the group finished: the owner thread was never recalled to its stack");
+            if (!m_ret_on_m) vf_fail("run_and_wait() returned on a foreign thread");
+            tbb::task::resume(spB); if (!wait_for(b_done, 60000)) vf_fail("suspended task B was never continued after resume");
+            tbb::task::resume(spV); if (!wait_for(v_done, 60000)) vf_fail("suspended task V was never continued after resume"); });
+        while (vf_gate_count() < 1) vf_yield();
+        vf_window(1); vf_gate_open();
+        a2.execute([&] { a2.enqueue([] { tbb::task::suspend([](tbb::task::suspend_point p) { spV = p; v_susp = 1; }); v_done = 1; });
+            if (!wait_for(v_susp)) { vf_outcome("setup-v"); return; } for (int i = 0; i < 30; i++) vf_yield();
+            tbb::task_group tg; tg.run_and_wait([&] { tbb::task::suspend([](tbb::task::suspend_point p) { spX = p; x_susp = 1; }); if (vf_self() == mthread) x_on_m = 1; x_cont = 1; for (int i = 0; i < 60000 && !cache_emptied; i++) vf_yield(); });
+            m_ret_on_m = vf_self() == mthread; m_returned = 1; });
+        vf_join(f); vf_window(0); vf_outcome("x_on_m=%d b_on_w=%d", x_on_m, b_on_w); }
     else vf_fail("unknown kind");
     vf_liveness(0);
     vf_outcome("ok");
